@@ -126,6 +126,12 @@ def skeleton(eng, name, P):
         b2 = [('BF', TS, bf_opts(eng, '0', ['ok', 'raise_after'], catch=P.get('catch', True)), [])]
         tail = [q_hole(eng, '0', kinds, [P1, TS])]
         return [b1 + tail, b2 + tail] if first == 0 else [b2 + tail, b1 + tail]
+    if name == 'A8c':
+        # as A8b (one direction), but the second build asks about the tree before it swaps the directory for a file
+        b1 = [('BF', 'o/d/e/h', {'mode': 'ok'}, []), ('BF', T2, {'mode': 'ok'}, [])]
+        b2 = [q_hole(eng, '0', kinds, [P1, TS]), ('BF', TS, bf_opts(eng, '0', ['ok', 'raise_after'], catch=P.get('catch', True)), []),
+              q_hole(eng, '1', kinds, [P1, TS])]
+        return [b1, b2]
     if name == 'A3r':
         # the first thing a build does is a query (nothing else has touched the bookkeeping yet)
         t = pick(eng, 't', targets)
